@@ -148,6 +148,25 @@ def raise_under_sum_only(node: Any) -> bool:
     return True
 
 
+def retriable_raise_below_group(node: Any, retriable: set) -> bool:
+    def any_retriable(n: Any) -> bool:
+        if n[0] == "raise":
+            return n[1] in retriable
+        if n[0] in ("sum", "group"):
+            return any(any_retriable(c) for c in n[2])
+        if n[0] == "twice":
+            return any_retriable(n[2])
+        return False
+
+    if node[0] == "group":
+        return any(any_retriable(c) for c in node[2])
+    if node[0] == "sum":
+        return any(retriable_raise_below_group(c, retriable) for c in node[2])
+    if node[0] == "twice":
+        return retriable_raise_below_group(node[2], retriable)
+    return False
+
+
 def normalise(outcome: Any) -> Any:
     if outcome[0] == "ok":
         return ("ok", outcome[1])
@@ -291,8 +310,13 @@ def shard(seed: int, examples: int, flavour: str, known: list[str]) -> dict:
             if deterministic:
                 rep.check(normalise(o) == normalise(base[0]) if o[0] != "status" else False, f"programs:{mode}:outcome-differs-from-sync", f"sync {normalise(base[0])} vs {mode} {normalise(o) if o[0] != 'status' else o}")
                 rep.check(runs == base[1], f"programs:{mode}:runs-differ-from-sync", f"sync {base[1]} vs {mode} {runs}")
-            else:
+            elif max_retries == 0 or not retriable_raise_below_group(node, {"retry", *retry_for}):
                 rep.check(o[0] == base[0][0], f"programs:{mode}:outcome-class-differs-from-sync", f"sync {base[0][0]} vs {mode} {o[0]}")
+            else:
+                # a retriable failure below a group re-executes an ancestor; sync mode evaluates group members lazily (later members
+                # are not run once one failed), the distributed group runs them all: with attempt-scripted leaves even the outcome
+                # class then depends on that order, which the statement does not fix
+                part.event("group_with_retriable_failure_not_compared")
 
     try:
         run_given(rep, prop, "programs", max_buckets=4)
